@@ -303,10 +303,26 @@ fn start_server(base: &Path, sources: &[Source], idx: usize, flags: &[String]) -
 			l.local_addr().unwrap().port()
 		};
 		let mut cmd = Command::new(&bin);
-		cmd.current_dir(base).arg("serve").arg("-i").arg("127.0.0.1").arg("-p").arg(port.to_string());
+		// launch variants (pseudo flags): `@cwd=<dir relative to base>` = working directory of the server,
+		// `@spell=<text>` = how the FIRST folder source is spelled on the command line (".", "./root/", absolute, "../x")
+		let cwd_rel = flags.iter().find_map(|f| f.strip_prefix("@cwd=")).unwrap_or("");
+		let spell = flags.iter().find_map(|f| f.strip_prefix("@spell="));
+		let plain_launch = cwd_rel.is_empty();
+		cmd.current_dir(base.join(cwd_rel)).arg("serve").arg("-i").arg("127.0.0.1").arg("-p").arg(port.to_string());
+		let mut first_folder = true;
 		for (k, s) in sources.iter().enumerate() {
 			let file = match &s.backend {
-				Backend::Folder(r) => r.clone(),
+				Backend::Folder(r) => {
+					let f = if first_folder && spell.is_some() {
+						spell.unwrap().replace(BASE_TOKEN, &base.display().to_string())
+					} else if plain_launch {
+						r.clone()
+					} else {
+						base.join(r).display().to_string()
+					};
+					first_folder = false;
+					f
+				}
 				Backend::Tar(ms) => {
 					// `TarFile::from` unwraps .gz / .br name suffixes down to .tar: vary the wrapping by configuration
 					let ext = ["tar", "tar.gz", "tar.br", "tar.br.gz"][idx % 4];
@@ -322,13 +338,13 @@ fn start_server(base: &Path, sources: &[Source], idx: usize, flags: &[String]) -
 						};
 					}
 					std::fs::write(base.join(&name), data).unwrap();
-					name
+					if plain_launch { name } else { base.join(&name).display().to_string() }
 				}
 			};
 			cmd.arg("-s").arg(if s.prefix.is_empty() { file } else { format!("[{}]{}", s.prefix, file) });
 		}
-		cmd.args(flags);
-		cmd.arg("zztiles").env("RUST_BACKTRACE", "0").stdin(Stdio::null()).stdout(Stdio::null()).stderr(Stdio::null());
+		cmd.args(flags.iter().filter(|f| !f.starts_with('@')));
+		cmd.arg(base.join("zztiles")).env("RUST_BACKTRACE", "0").stdin(Stdio::null()).stdout(Stdio::null()).stderr(Stdio::null());
 		let mut child = cmd.spawn().expect("cannot start the versatiles binary");
 		let addr: SocketAddr = format!("127.0.0.1:{port}").parse().unwrap();
 		let t0 = Instant::now();
@@ -975,7 +991,7 @@ fn check_targets(out: &mut Out, base: &Path, server: &Server, entries: &[Entry],
 pub fn run(args: &Args) {
 	quiet_panics();
 	let mut out = Out::new(&args.out);
-	out.rule = "raw HTTP/1.1 GET requests (target bytes sent verbatim) against `versatiles serve` with folder / tar static sources, with and without URL prefix, and a multi-source configuration; fixture with canary files outside the roots (incl. siblings named after the root: <root>.html/.htm/.br/.gz/.html.br/.tar/~/.bak/, <parent>.html) and roots with / without index.html / with only index.html.br|.gz; directory-style requests at every level of every root; targets: all sequences of depth ≤3 (thorough ≤4) over a small segment alphabet (names, '.', '..', empty, %2e%2e, …) plus seeded random sequences of depth ≤6 over a large alphabet, plus absolute-path targets (//, /// after the URL prefix) at every sibling whose path string extends a root's path string (rootx/…, root.br, root-private/…), plus every file outside a root (canaries, precompressed-only .br/.gz siblings) via '..' and absolute forms with and without its extension; requests carry no Accept-Encoding or one of gzip / br / 'gzip, br' / identity (all five for the fixed list and the outside-file targets, one seeded variant for the bulk); plus oracle-only probes (HEAD vs GET on the fixed list, POST/PUT/DELETE/OPTIONS/PATCH, targets of 5-40 kB, bytes hyper rejects, absolute-form and authority-form targets, the routed prefixes /status and /tiles/…), a second phase on the same server after files were created / removed / replaced (tar archives rewritten on disk), tar archives wrapped as .tar / .tar.gz / .tar.br / .tar.br.gz, non-regular tar entries, overlapping and repeated URL prefixes in both source orders, --fast --disable-api, empty and 2 MiB files, a symlink fixture; plus guided walks (existing files, directories and archive members perturbed by '.', empty, 'x/..', '..', partially encoded segments, dropped .br/.gz extensions) with extra leading slashes, absolute-path injections, trailing slash, ?query/#fragment; non-trivial = the path contains a '..', '.', empty, percent-encoded or backslash segment or an absolute form; distinct by case text".into();
+	out.rule = "raw HTTP/1.1 GET requests (target bytes sent verbatim) against `versatiles serve` with folder / tar static sources, with and without URL prefix, and a multi-source configuration; fixture with canary files outside the roots (incl. siblings named after the root: <root>.html/.htm/.br/.gz/.html.br/.tar/~/.bak/, <parent>.html) and roots with / without index.html / with only index.html.br|.gz; directory-style requests at every level of every root; server instances whose working directory is the static root itself (`--static .`), a sub-directory of it or a sibling, and absolute / dotted / trailing-slash spellings of the root; targets: all sequences of depth ≤3 (thorough ≤4) over a small segment alphabet (names, '.', '..', empty, %2e%2e, …) plus seeded random sequences of depth ≤6 over a large alphabet, plus absolute-path targets (//, /// after the URL prefix) at every sibling whose path string extends a root's path string (rootx/…, root.br, root-private/…), plus every file outside a root (canaries, precompressed-only .br/.gz siblings) via '..' and absolute forms with and without its extension; requests carry no Accept-Encoding or one of gzip / br / 'gzip, br' / identity (all five for the fixed list and the outside-file targets, one seeded variant for the bulk); plus oracle-only probes (HEAD vs GET on the fixed list, POST/PUT/DELETE/OPTIONS/PATCH, targets of 5-40 kB, bytes hyper rejects, absolute-form and authority-form targets, the routed prefixes /status and /tiles/…), a second phase on the same server after files were created / removed / replaced (tar archives rewritten on disk), tar archives wrapped as .tar / .tar.gz / .tar.br / .tar.br.gz, non-regular tar entries, overlapping and repeated URL prefixes in both source orders, --fast --disable-api, empty and 2 MiB files, a symlink fixture; plus guided walks (existing files, directories and archive members perturbed by '.', empty, 'x/..', '..', partially encoded segments, dropped .br/.gz extensions) with extra leading slashes, absolute-path injections, trailing slash, ?query/#fragment; non-trivial = the path contains a '..', '.', empty, percent-encoded or backslash segment or an absolute form; distinct by case text".into();
 	std::fs::create_dir_all(&args.out).unwrap();
 	let base = std::fs::canonicalize(&args.out).unwrap().join("w");
 	let base_s = base.display().to_string();
@@ -1035,6 +1051,21 @@ pub fn run(args: &Args) {
 	configs.push(vec![folder("/assets", "site/noidx")]);
 	configs.push(vec![folder("", "site/bridx")]);
 	configs.push(vec![folder("/p", "site/gzidx"), tar("")]);
+	// launch variants: the static root IS the working directory (`--static .`), a sub-directory of it is,
+	// absolute / dotted / trailing-slash spellings of the root
+	let launch_first = configs.len();
+	let launches: Vec<(Vec<Source>, Vec<String>)> = vec![
+		(vec![folder("", "root")], vec!["@cwd=root".into(), "@spell=.".into()]),
+		(vec![folder("/assets", "root")], vec!["@cwd=root".into(), "@spell=./".into()]),
+		(vec![folder("", "root")], vec!["@cwd=root/sub".into(), "@spell=..".into()]),
+		(vec![folder("", "root")], vec![format!("@spell={BASE_TOKEN}/root")]),
+		(vec![folder("", "root")], vec!["@spell=./root/".into()]),
+		(vec![folder("", "site/noidx")], vec!["@cwd=site".into(), "@spell=../site/./noidx".into()]),
+		(vec![folder("", "site/noidx"), tar("/t")], vec!["@cwd=site/noidx".into(), "@spell=.".into()]),
+	];
+	for (c, _) in &launches {
+		configs.push(c.clone());
+	}
 	if args.thorough() {
 		configs.push(vec![folder("pre/fix/", "root")]);
 		configs.push(vec![tar("assets"), folder("assets", "root2")]);
@@ -1302,7 +1333,13 @@ pub fn run(args: &Args) {
 		} else {
 			None
 		};
-		let flags: Vec<String> = if ci == flags_cfg { vec!["--fast".into(), "--disable-api".into()] } else { vec![] };
+		let flags: Vec<String> = if ci == flags_cfg {
+			vec!["--fast".into(), "--disable-api".into()]
+		} else if ci >= launch_first && ci < launch_first + launches.len() {
+			launches[ci - launch_first].1.clone()
+		} else {
+			vec![]
+		};
 		let g = Group { entries: entries.clone(), sources: sources.clone(), targets, flags, probes, after };
 		run_group(&mut out, &base, ci, &g, &mut shrink_budget);
 	}
